@@ -92,6 +92,7 @@ type Spec struct {
 	GraceMs  int        `json:"grace_ms"`
 	ShortMs  int        `json:"short_ms"`
 	StatusMs int        `json:"status_ms"`
+	IdleMs   int        `json:"idle_ms"` // deadline of a Wait on a plan that is not executing
 }
 
 // ---------------------------------------------------------------------------------------------- child
@@ -384,9 +385,16 @@ func (w *world) doOp(op OpSpec) string {
 		}
 		return errClass(err)
 	case "wait":
-		d := 20 * time.Second
-		if op.ID < len(w.ids) && w.inflight[op.ID] && !w.ids[op.ID].open {
-			d = time.Duration(w.spec.ShortMs) * time.Millisecond // the call is going to block: the plan is held by its gate
+		// Deadlines: a plan the caller started and holds by its gate: the call is going to block (short);
+		// a plan the caller started whose gate is open: it has to finish first (long); anything else - never
+		// started by this caller, finished, unknown id - is not executing, so Wait has nothing to wait for:
+		// a generous deadline for one store read, after which the call counts as blocked.
+		d := time.Duration(w.spec.IdleMs) * time.Millisecond
+		if op.ID < len(w.ids) && w.inflight[op.ID] {
+			d = 20 * time.Second
+			if !w.ids[op.ID].open {
+				d = time.Duration(w.spec.ShortMs) * time.Millisecond
+			}
 		}
 		ctx, cancel := context.WithTimeout(bg, d)
 		defer cancel()
@@ -478,6 +486,9 @@ func childMain() {
 	}
 	out := bufio.NewWriter(os.Stdout)
 	say := func(f string, a ...any) { fmt.Fprintf(out, f+"\n", a...); out.Flush() }
+	if spec.IdleMs == 0 {
+		spec.IdleMs = 3000
+	}
 	w, err := newWorld(&spec)
 	if err != nil {
 		say("SETUPERR %v", err)
@@ -536,6 +547,7 @@ func childMain() {
 			}
 			id = rec.id
 		}
+		burstStartable := b.Target != nil && (b.ViaAPI || specStartable(b.Target, spec.MaxMs, modelNow))
 		say("READY")
 		say("B 0")
 		starts := make([]string, b.Starts)
@@ -557,7 +569,11 @@ func childMain() {
 			go func(i int, what string) {
 				defer wg.Done()
 				<-fire
-				ctx, cancel := context.WithTimeout(context.Background(), 20*time.Second)
+				d := 20 * time.Second
+				if !burstStartable {
+					d = time.Duration(spec.IdleMs) * time.Millisecond // nothing will execute: nothing to wait for
+				}
+				ctx, cancel := context.WithTimeout(context.Background(), d)
 				defer cancel()
 				switch what {
 				case "wait":
@@ -819,7 +835,7 @@ func specStartable(ps *PreSpec, maxMs, now int64) bool {
 
 func genHist(root *core.Rand, i int, maxLen int, tickCase bool) *Spec {
 	r := root.Fork(uint64(i))
-	s := &Spec{Kind: "hist", Index: i, Seed: core.Seed(), MaxMs: defaultMax, GraceMs: 60, ShortMs: 200, StatusMs: 2, Family: "hist"}
+	s := &Spec{Kind: "hist", Index: i, Seed: core.Seed(), MaxMs: defaultMax, GraceMs: 60, ShortMs: 200, StatusMs: 2, IdleMs: 3000, Family: "hist"}
 	switch {
 	case tickCase:
 		s.SetMax, s.MaxMs, s.Family = true, 6000, "hist-tick"
@@ -981,7 +997,7 @@ func genHist(root *core.Rand, i int, maxLen int, tickCase bool) *Spec {
 
 func genBurst(root *core.Rand, i int) *Spec {
 	r := root.Fork(uint64(i) + 1_000_000)
-	s := &Spec{Kind: "burst", Index: i, Seed: core.Seed(), MaxMs: defaultMax, GraceMs: 80, ShortMs: 200, StatusMs: 2, Family: "burst"}
+	s := &Spec{Kind: "burst", Index: i, Seed: core.Seed(), MaxMs: defaultMax, GraceMs: 80, ShortMs: 200, StatusMs: 2, IdleMs: 3000, Family: "burst"}
 	b := &BurstSpec{Starts: r.Range(2, 16), GateOpen: r.Chance(0.5)}
 	kinds := preKinds(s.MaxMs)
 	switch c := r.Weighted([]int{45, 15, 25, 8, 7}); c {
